@@ -48,7 +48,7 @@ def main():
             rc, o = sh(f'{PY} -m pytest -q -p no:cacheprovider --timeout=900 --continue-on-collection-errors 2>&1 | tail -1', wt, timeout=1800)
             out['tests'] = o.strip().splitlines()[-1] if o.strip() else ''
             out['tests_same'] = BASE in out['tests']
-        env = dict(os.environ, CIRBO_VERIF_REPO=str(wt))
+        env = dict(os.environ, CIRBO_VERIF_REPO=str(wt), CIRBO_VERIF_EVIDENCE=f'/tmp/dev/ev_{wt.name}')
         verdicts = {}
         for p in (props or [f'C{i:02d}' for i in range(1, 21)]):
             rc, o = sh(f'{PY} -m cirbo_verif check {p}', '/verif', env=env)
@@ -58,8 +58,6 @@ def main():
         out['caught_by'] = verdicts
     finally:
         sh('git checkout -- .', wt)
-        # evidence files were rewritten against the patched tree: restore the committed ones
-        sh('git checkout -- evidence', '/verif')
     print(json.dumps(out, indent=1))
     return 0
 
